@@ -34,3 +34,239 @@ package sio
 //@   ensures sawerr ==> closes == 1 [C10.route.client]
 //@   ensures !sawerr ==> closes == 0 [C10.route.client.only]
 //@   loop 0 invariant !sawerr && closes == 0
+
+// ---------------------------------------------------------------------------------------------
+// C18: handler registries. view(handlerStore) = the three sequences subs, funcs, funcsOnce.
+//@ func (*handlerStore).on
+//@   modifies e.funcs
+//@   ensures len(e.funcs) == old(len(e.funcs)) + 1 && e.funcs[old(len(e.funcs))] == handler [C18.hs.on]
+//@   ensures forall k int :: 0 <= k && k < old(len(e.funcs)) ==> e.funcs[k] == old(e.funcs[k]) [C18.hs.on.keeps]
+//@   ensures e.funcsOnce == old(e.funcsOnce) && e.subs == old(e.subs) [C18.hs.on.frame]
+
+//@ func (*handlerStore).once
+//@   modifies e.funcsOnce
+//@   ensures len(e.funcsOnce) == old(len(e.funcsOnce)) + 1 && e.funcsOnce[old(len(e.funcsOnce))] == handler [C18.hs.once]
+//@   ensures forall k int :: 0 <= k && k < old(len(e.funcsOnce)) ==> e.funcsOnce[k] == old(e.funcsOnce[k]) [C18.hs.once.keeps]
+//@   ensures e.funcs == old(e.funcs) && e.subs == old(e.subs) [C18.hs.once.frame]
+
+//@ func (*handlerStore).onSubEvent
+//@   modifies e.subs
+//@   ensures len(e.subs) == old(len(e.subs)) + 1 && e.subs[old(len(e.subs))] == handler [C18.hs.sub]
+//@   ensures forall k int :: 0 <= k && k < old(len(e.subs)) ==> e.subs[k] == old(e.subs[k])
+//@   ensures e.funcs == old(e.funcs) && e.funcsOnce == old(e.funcsOnce)
+
+//@ func (*handlerStore).offAll
+//@   modifies e.funcs, e.funcsOnce
+//@   ensures len(e.funcs) == 0 && len(e.funcsOnce) == 0 [C18.hs.offall]
+
+// getAll: subs ++ funcs ++ funcsOnce, and the once-list is emptied in the same critical section
+// (so a once-handler is handed out by exactly one getAll).
+//@ func (*handlerStore).getAll
+//@   modifies e.funcsOnce
+//@   ensures len(handlers) == old(len(e.subs) + len(e.funcs) + len(e.funcsOnce)) [C18.hs.getall.len]
+//@   ensures forall k int :: 0 <= k && k < old(len(e.subs)) ==> handlers[k] == old(e.subs[k]) [C18.hs.getall.subs]
+//@   ensures forall k int :: 0 <= k && k < old(len(e.funcs)) ==> handlers[old(len(e.subs)) + k] == old(e.funcs[k]) [C18.hs.getall.funcs]
+//@   ensures forall k int :: 0 <= k && k < old(len(e.funcsOnce)) ==> handlers[old(len(e.subs) + len(e.funcs)) + k] == old(e.funcsOnce[k]) [C18.hs.getall.once]
+//@   ensures len(e.funcsOnce) == 0 [C18.hs.getall.clears]
+//@   ensures e.funcs == old(e.funcs) && e.subs == old(e.subs) [C18.hs.getall.frame]
+//@   ensures forall k int :: 0 <= k && k < len(e.funcs) ==> e.funcs[k] == old(e.funcs[k]) [C18.hs.getall.keeps]
+
+// eventHandlerStore: map of sequences. Representation: both maps exist, stored handlers are non-nil.
+//@ define esValid(e *eventHandlerStore) bool = e != nil && e.events != nil && e.eventsOnce != nil && (forall n string, k int :: 0 <= k && k < len(e.events[n]) ==> e.events[n][k] != nil) && (forall n string, k int :: 0 <= k && k < len(e.eventsOnce[n]) ==> e.eventsOnce[n][k] != nil)
+
+//@ func (*eventHandlerStore).on
+//@   requires esValid(e) && handler != nil
+//@   modifies mapof(e.events)
+//@   ensures len(e.events[eventName]) == old(len(e.events[eventName])) + 1 && e.events[eventName][old(len(e.events[eventName]))] == handler [C18.es.on]
+//@   ensures forall k int :: 0 <= k && k < old(len(e.events[eventName])) ==> e.events[eventName][k] == old(e.events[eventName][k]) [C18.es.on.keeps]
+//@   ensures forall n string :: n != eventName ==> e.events[n] == old(e.events[n]) [C18.es.on.frame]
+
+//@ func (*eventHandlerStore).once
+//@   requires esValid(e) && handler != nil
+//@   modifies mapof(e.eventsOnce)
+//@   ensures len(e.eventsOnce[eventName]) == old(len(e.eventsOnce[eventName])) + 1 && e.eventsOnce[eventName][old(len(e.eventsOnce[eventName]))] == handler [C18.es.once]
+//@   ensures forall n string :: n != eventName ==> e.eventsOnce[n] == old(e.eventsOnce[n]) [C18.es.once.frame]
+
+// off(name) without handlers removes every handler of that event; other events are untouched; no panic.
+//@ func (*eventHandlerStore).off$1
+//@   loop 0 invariant len(kept) <= rangeindex + 1 [C18.es.filter.shrinks]
+
+//@ func (*eventHandlerStore).off
+//@   opt safety bounds
+//@   requires esValid(e)
+//@   modifies mapof(e.events), mapof(e.eventsOnce)
+//@   ensures len(handler) == 0 ==> len(e.events[eventName]) == 0 && len(e.eventsOnce[eventName]) == 0 [C18.es.off.all]
+//@   ensures forall n string :: n != eventName ==> e.events[n] == old(e.events[n]) && e.eventsOnce[n] == old(e.eventsOnce[n]) [C18.es.off.frame]
+//@   ensures len(e.events[eventName]) <= old(len(e.events[eventName])) && len(e.eventsOnce[eventName]) <= old(len(e.eventsOnce[eventName])) [C18.es.off.shrinks]
+
+//@ func (*eventHandlerStore).getAll
+//@   requires esValid(e)
+//@   modifies mapof(e.eventsOnce)
+//@   ensures len(handlers) == old(len(e.events[eventName]) + len(e.eventsOnce[eventName])) [C18.es.getall.len]
+//@   ensures forall k int :: 0 <= k && k < old(len(e.events[eventName])) ==> handlers[k] == old(e.events[eventName][k]) [C18.es.getall.on]
+//@   ensures forall k int :: 0 <= k && k < old(len(e.eventsOnce[eventName])) ==> handlers[old(len(e.events[eventName])) + k] == old(e.eventsOnce[eventName][k]) [C18.es.getall.once]
+//@   ensures len(e.eventsOnce[eventName]) == 0 [C18.es.getall.clears]
+//@   ensures forall n string :: n != eventName ==> e.eventsOnce[n] == old(e.eventsOnce[n]) [C18.es.getall.frame]
+
+// Manager.OffOpen(f) must name the handler that On/Once registered: a pointer that can identify a registered handler
+// (a pointer into the argument array never can).
+//@ func (*Manager).OffOpen
+//@   requires m.openHandlers != nil
+//@   callsite off
+//@     requires forall k int :: 0 <= k && k < len(arg0) ==> arg0[k] > 0 [C18.api.off.identity.Manager.OffOpen]
+
+// Manager.OffPing(f) must name the handler that On/Once registered: a pointer that can identify a registered handler
+// (a pointer into the argument array never can).
+//@ func (*Manager).OffPing
+//@   requires m.pingHandlers != nil
+//@   callsite off
+//@     requires forall k int :: 0 <= k && k < len(arg0) ==> arg0[k] > 0 [C18.api.off.identity.Manager.OffPing]
+
+// Manager.OffError(f) must name the handler that On/Once registered: a pointer that can identify a registered handler
+// (a pointer into the argument array never can).
+//@ func (*Manager).OffError
+//@   requires m.errorHandlers != nil
+//@   callsite off
+//@     requires forall k int :: 0 <= k && k < len(arg0) ==> arg0[k] > 0 [C18.api.off.identity.Manager.OffError]
+
+// Manager.OffClose(f) must name the handler that On/Once registered: a pointer that can identify a registered handler
+// (a pointer into the argument array never can).
+//@ func (*Manager).OffClose
+//@   requires m.closeHandlers != nil
+//@   callsite off
+//@     requires forall k int :: 0 <= k && k < len(arg0) ==> arg0[k] > 0 [C18.api.off.identity.Manager.OffClose]
+
+// Manager.OffReconnect(f) must name the handler that On/Once registered: a pointer that can identify a registered handler
+// (a pointer into the argument array never can).
+//@ func (*Manager).OffReconnect
+//@   requires m.reconnectHandlers != nil
+//@   callsite off
+//@     requires forall k int :: 0 <= k && k < len(arg0) ==> arg0[k] > 0 [C18.api.off.identity.Manager.OffReconnect]
+
+// Manager.OffReconnectAttempt(f) must name the handler that On/Once registered: a pointer that can identify a registered handler
+// (a pointer into the argument array never can).
+//@ func (*Manager).OffReconnectAttempt
+//@   requires m.reconnectAttemptHandlers != nil
+//@   callsite off
+//@     requires forall k int :: 0 <= k && k < len(arg0) ==> arg0[k] > 0 [C18.api.off.identity.Manager.OffReconnectAttempt]
+
+// Manager.OffReconnectError(f) must name the handler that On/Once registered: a pointer that can identify a registered handler
+// (a pointer into the argument array never can).
+//@ func (*Manager).OffReconnectError
+//@   requires m.reconnectErrorHandlers != nil
+//@   callsite off
+//@     requires forall k int :: 0 <= k && k < len(arg0) ==> arg0[k] > 0 [C18.api.off.identity.Manager.OffReconnectError]
+
+// Manager.OffReconnectFailed(f) must name the handler that On/Once registered: a pointer that can identify a registered handler
+// (a pointer into the argument array never can).
+//@ func (*Manager).OffReconnectFailed
+//@   requires m.reconnectFailedHandlers != nil
+//@   callsite off
+//@     requires forall k int :: 0 <= k && k < len(arg0) ==> arg0[k] > 0 [C18.api.off.identity.Manager.OffReconnectFailed]
+
+// clientSocket.OffConnect(f) must name the handler that On/Once registered: a pointer that can identify a registered handler
+// (a pointer into the argument array never can).
+//@ func (*clientSocket).OffConnect
+//@   requires s.connectHandlers != nil
+//@   callsite off
+//@     requires forall k int :: 0 <= k && k < len(arg0) ==> arg0[k] > 0 [C18.api.off.identity.clientSocket.OffConnect]
+
+// clientSocket.OffConnectError(f) must name the handler that On/Once registered: a pointer that can identify a registered handler
+// (a pointer into the argument array never can).
+//@ func (*clientSocket).OffConnectError
+//@   requires s.connectErrorHandlers != nil
+//@   callsite off
+//@     requires forall k int :: 0 <= k && k < len(arg0) ==> arg0[k] > 0 [C18.api.off.identity.clientSocket.OffConnectError]
+
+// clientSocket.OffDisconnect(f) must name the handler that On/Once registered: a pointer that can identify a registered handler
+// (a pointer into the argument array never can).
+//@ func (*clientSocket).OffDisconnect
+//@   requires s.disconnectHandlers != nil
+//@   callsite off
+//@     requires forall k int :: 0 <= k && k < len(arg0) ==> arg0[k] > 0 [C18.api.off.identity.clientSocket.OffDisconnect]
+
+// Namespace.OffConnection(f) must name the handler that On/Once registered: a pointer that can identify a registered handler
+// (a pointer into the argument array never can).
+//@ func (*Namespace).OffConnection
+//@   requires n.connectionHandlers != nil
+//@   callsite off
+//@     requires forall k int :: 0 <= k && k < len(arg0) ==> arg0[k] > 0 [C18.api.off.identity.Namespace.OffConnection]
+
+// Server.OffNewNamespace(f) must name the handler that On/Once registered: a pointer that can identify a registered handler
+// (a pointer into the argument array never can).
+//@ func (*Server).OffNewNamespace
+//@   requires s.newNamespaceHandlers != nil
+//@   callsite off
+//@     requires forall k int :: 0 <= k && k < len(arg0) ==> arg0[k] > 0 [C18.api.off.identity.Server.OffNewNamespace]
+
+// Server.OffAnyConnection(f) must name the handler that On/Once registered: a pointer that can identify a registered handler
+// (a pointer into the argument array never can).
+//@ func (*Server).OffAnyConnection
+//@   requires s.anyConnectionHandlers != nil
+//@   callsite off
+//@     requires forall k int :: 0 <= k && k < len(arg0) ==> arg0[k] > 0 [C18.api.off.identity.Server.OffAnyConnection]
+
+// serverSocket.OffError(f) must name the handler that On/Once registered: a pointer that can identify a registered handler
+// (a pointer into the argument array never can).
+//@ func (*serverSocket).OffError
+//@   requires s.errorHandlers != nil
+//@   callsite off
+//@     requires forall k int :: 0 <= k && k < len(arg0) ==> arg0[k] > 0 [C18.api.off.identity.serverSocket.OffError]
+
+// serverSocket.OffDisconnecting(f) must name the handler that On/Once registered: a pointer that can identify a registered handler
+// (a pointer into the argument array never can).
+//@ func (*serverSocket).OffDisconnecting
+//@   requires s.disconnectingHandlers != nil
+//@   callsite off
+//@     requires forall k int :: 0 <= k && k < len(arg0) ==> arg0[k] > 0 [C18.api.off.identity.serverSocket.OffDisconnecting]
+
+// serverSocket.OffDisconnect(f) must name the handler that On/Once registered: a pointer that can identify a registered handler
+// (a pointer into the argument array never can).
+//@ func (*serverSocket).OffDisconnect
+//@   requires s.disconnectHandlers != nil
+//@   callsite off
+//@     requires forall k int :: 0 <= k && k < len(arg0) ==> arg0[k] > 0 [C18.api.off.identity.serverSocket.OffDisconnect]
+
+
+// OffAll leaves every registry of the object empty.
+//@ func (*Manager).OffAll
+//@   requires m.openHandlers != nil && m.pingHandlers != nil && m.errorHandlers != nil && m.closeHandlers != nil && m.reconnectHandlers != nil && m.reconnectAttemptHandlers != nil && m.reconnectErrorHandlers != nil && m.reconnectFailedHandlers != nil
+//@   ensures len(m.openHandlers.funcs) == 0 && len(m.openHandlers.funcsOnce) == 0 [C18.api.offall.Manager.openHandlers]
+//@   ensures len(m.pingHandlers.funcs) == 0 && len(m.pingHandlers.funcsOnce) == 0 [C18.api.offall.Manager.pingHandlers]
+//@   ensures len(m.errorHandlers.funcs) == 0 && len(m.errorHandlers.funcsOnce) == 0 [C18.api.offall.Manager.errorHandlers]
+//@   ensures len(m.closeHandlers.funcs) == 0 && len(m.closeHandlers.funcsOnce) == 0 [C18.api.offall.Manager.closeHandlers]
+//@   ensures len(m.reconnectHandlers.funcs) == 0 && len(m.reconnectHandlers.funcsOnce) == 0 [C18.api.offall.Manager.reconnectHandlers]
+//@   ensures len(m.reconnectAttemptHandlers.funcs) == 0 && len(m.reconnectAttemptHandlers.funcsOnce) == 0 [C18.api.offall.Manager.reconnectAttemptHandlers]
+//@   ensures len(m.reconnectErrorHandlers.funcs) == 0 && len(m.reconnectErrorHandlers.funcsOnce) == 0 [C18.api.offall.Manager.reconnectErrorHandlers]
+//@   ensures len(m.reconnectFailedHandlers.funcs) == 0 && len(m.reconnectFailedHandlers.funcsOnce) == 0 [C18.api.offall.Manager.reconnectFailedHandlers]
+
+//@ func (*clientSocket).OffAll
+//@   requires s.connectHandlers != nil && s.connectErrorHandlers != nil && s.disconnectHandlers != nil && esValid(s.eventHandlers)
+//@   ensures len(s.connectHandlers.funcs) == 0 && len(s.connectHandlers.funcsOnce) == 0 [C18.api.offall.clientSocket.connectHandlers]
+//@   ensures len(s.connectErrorHandlers.funcs) == 0 && len(s.connectErrorHandlers.funcsOnce) == 0 [C18.api.offall.clientSocket.connectErrorHandlers]
+//@   ensures len(s.disconnectHandlers.funcs) == 0 && len(s.disconnectHandlers.funcsOnce) == 0 [C18.api.offall.clientSocket.disconnectHandlers]
+
+//@ func (*Namespace).OffAll
+//@   requires n.connectionHandlers != nil && esValid(n.eventHandlers)
+//@   ensures len(n.connectionHandlers.funcs) == 0 && len(n.connectionHandlers.funcsOnce) == 0 [C18.api.offall.Namespace.connectionHandlers]
+
+//@ func (*serverSocket).OffAll
+//@   requires s.errorHandlers != nil && s.disconnectingHandlers != nil && s.disconnectHandlers != nil && esValid(s.eventHandlers)
+//@   ensures len(s.errorHandlers.funcs) == 0 && len(s.errorHandlers.funcsOnce) == 0 [C18.api.offall.serverSocket.errorHandlers]
+//@   ensures len(s.disconnectingHandlers.funcs) == 0 && len(s.disconnectingHandlers.funcsOnce) == 0 [C18.api.offall.serverSocket.disconnectingHandlers]
+//@   ensures len(s.disconnectHandlers.funcs) == 0 && len(s.disconnectHandlers.funcsOnce) == 0 [C18.api.offall.serverSocket.disconnectHandlers]
+
+// OffEvent(name) without handlers removes all handlers of that event.
+//@ func (*clientSocket).OffEvent
+//@   requires esValid(s.eventHandlers)
+//@   ensures len(handler) == 0 ==> len(s.eventHandlers.events[eventName]) == 0 && len(s.eventHandlers.eventsOnce[eventName]) == 0 [C18.api.offevent.clientSocket]
+//@ func (*serverSocket).OffEvent
+//@   requires esValid(s.eventHandlers)
+//@   ensures len(handler) == 0 ==> len(s.eventHandlers.events[eventName]) == 0 && len(s.eventHandlers.eventsOnce[eventName]) == 0 [C18.api.offevent.serverSocket]
+//@ func (*Namespace).OffEvent
+//@   requires esValid(n.eventHandlers)
+//@   ensures len(handler) == 0 ==> len(n.eventHandlers.events[eventName]) == 0 && len(n.eventHandlers.eventsOnce[eventName]) == 0 [C18.api.offevent.Namespace]
+
+//@ func (*eventHandlerStore).offAll
+//@   opt safety off
+//@   modifies mapof(e.events), mapof(e.eventsOnce)
